@@ -302,7 +302,10 @@ def shared_rule(cat, rep, rule='R17.7'):
                 continue
             try:
                 twin = ip.instantiate(fr.cls, [], {'instance': fr.instance if fr.instance is not None else '1', 'solver': SolverTok()}, fr.cls.node, _root_scope(ip, fr.cls.rel))
-            except InterpAbort:
+            except InterpAbort as e:
+                rep.ob(rule, f'{y}/{fr.name}/second-copy-can-be-built', False,
+                       f'{fr.cls.name}(instance={fr.instance!r}) can be built once but not a second time in the same process ({e.kind}: {e.msg}): building a copy changes something '
+                       'shared by the class (for instance the list of allowed instances), so solve followed by fill-pdfs, or a second return, fails', fr.where)
                 continue
             mine = {id(r): r for table in (fr.inputs, fr.fields) for r in table if isinstance(r, Rec)}
             for attr in ('_inputs', '_required_fields', '_optional_fields', '_fields'):
